@@ -21,7 +21,7 @@ META = {
         "exactly after the bytes moved into the tail, so no byte is counted twice or dropped at that boundary."
     ),
     "trusted_base": ["rustc nightly front end and constant evaluator"],
-    "assumptions": ["x86_64 target (usize is 64 bit)"],
+    "assumptions": ["analysed targets: x86_64 (64-bit usize); i686 (32-bit usize) in the thorough tier"],
     "not_decided": ["exactness of the byte counter as an induction over arbitrary histories (decided per update() call: R-11.3 + R-11.5)",
                     "equality with the reference at exactly MAX bytes (C01 at a boundary)"],
 }
